@@ -12,11 +12,12 @@ def run(m):
     d = tempfile.mkdtemp(prefix='m4mut_', dir='/tmp')
     try:
         os.makedirs(d + '/m4ri')
-        for f in os.listdir('/repo/m4ri'):
+        BASE = os.environ.get('TRY_BASE', '/repo')
+        for f in os.listdir(BASE + '/m4ri'):
             if f.endswith(('.c', '.h', '.in')):
-                shutil.copy('/repo/m4ri/' + f, d + '/m4ri/' + f)
+                shutil.copy(BASE + '/m4ri/' + f, d + '/m4ri/' + f)
         for f in ('Makefile.am', 'configure.ac'):
-            shutil.copy('/repo/' + f, d + '/' + f)
+            shutil.copy(BASE + '/' + f, d + '/' + f)
         p = d + '/' + m['file']
         s = open(p).read()
         if s.count(m['old']) < 1:
